@@ -177,6 +177,40 @@ def base_matrix(seed):
     ]
 
 
+def gen_worlds(n, seed, scratch, n_cells=6, levels=(0, 1, 2, 3), n_bounds=3):
+    """Worlds sampled by TLC from CellWorld.tla."""
+    cfg = os.path.join(scratch, 'CellWorld_%d.cfg' % seed)
+    tlc.write_cfg(cfg, spec='Spec', constants=dict(NCells=n_cells, Levels=set(levels), NBounds=n_bounds),
+                  invariants=['Emit'])
+    res = tlc.run_tlc('CellWorld', cfg, workers=1, simulate='num=%d' % (3 * n), depth=n_cells + n_bounds + 1,
+                      seed=seed, timeout=120)
+    worlds, seen = [], set()
+    for line in res.prints:
+        v = tlc.parse_tla(line)
+        if v and v[0] == '@@W':
+            w = dict(lv=v[1], extra=[sorted(x[1]) for x in v[2]], drop=[sorted(x[1]) for x in v[3]])
+            key = json.dumps(w, sort_keys=True)
+            if key not in seen:
+                seen.add(key)
+                worlds.append(w)
+    rnd = random.Random(seed)
+    rnd.shuffle(worlds)
+    return worlds[:n], res
+
+
+def cellworld_configs(seed, scratch, n):
+    worlds, res = gen_worlds(n, seed + 3, scratch)
+    cfgs = []
+    for i, w in enumerate(worlds):
+        hist = [['run', dict(n_eff=25, n_like_rel=150, discard_exploration=bool(i % 2), n_shell=3, f_live=[0.5, 0.2, 0.8][i % 3])],
+                ['posterior'], ['toggle', not bool(i % 2)], ['run', dict(n_eff=40, n_like_rel=45, n_shell=6, f_live=0.5)],
+                ['posterior']]
+        cfgs.append(dict(kind='cells', K=3, world=w, n_live=[4, 6, 8][i % 3], n_batch=[2, 3, 1][i % 3], n_update=3,
+                         n_like_new_bound=12, n_points_min=3, seed=500 + seed * 13 + i, mseed=seed, history=hist,
+                         blob=['none', 'int', 'multi'][i % 3]))
+    return cfgs, res
+
+
 def _job(args):
     cfg, path = args
     r = history.run_history(cfg)
@@ -301,6 +335,9 @@ def check(prop, tier, seed):
         rep.add_tlc(res, 'Driver.tla/simulate')
         cfgs += hc
         cfgs += scenario_configs(seed)
+        wc, wres = cellworld_configs(seed, scratch, 10 if tier == 'quick' else 120)
+        rep.add_tlc(wres, 'CellWorld.tla/simulate')
+        cfgs += wc
         if tier == 'thorough':
             for r in range(1, 8):
                 cfgs += [dict(c, history=FULL) for c in base_matrix(seed + 100 * r)]
